@@ -271,12 +271,12 @@ PROPS["C09"]["build_expect"] = gens.build_expect_c09
 TIE_GROUPS = {
     "C01": ["Mask", "Swar"], "C02": ["Mask", "Swar"], "C06": ["Mask", "Swar", "IterHint"], "C07": ["Mask", "Swar"],
     "C09": ["Mask", "Swar"], "C05": ["Mask"],
-    "C03": ["RabinKarp", "ByteSet", "Shift", "Suffix", "Prefilter", "Searcher", "Mask"],
-    "C04": ["RabinKarp", "ByteSet", "Shift", "Suffix", "Mask"],
+    "C03": ["RabinKarp", "ByteSet", "Shift", "Suffix", "TwoWayNew", "Prefilter", "Searcher", "Mask"],
+    "C04": ["RabinKarp", "ByteSet", "Shift", "Suffix", "TwoWayNew", "Mask"],
     "C08": ["Prefilter", "Searcher", "IterHint"], "C10": ["Prefilter", "Searcher"], "C16": ["Prefilter"],
-    "C11": ["Mask", "Pair"], "C12": ["RabinKarp", "ByteSet", "Shift", "Suffix", "Mask"],
+    "C11": ["Mask", "Pair"], "C12": ["RabinKarp", "ByteSet", "Shift", "Suffix", "TwoWayNew", "Mask"],
     "C13": ["Searcher", "RabinKarp", "Shift", "Suffix", "Prefilter"],
-    "C14": ["Prefilter", "RabinKarp", "Swar", "ByteSet", "Mask", "Pair", "Searcher", "IterHint", "Shift", "Suffix"],
+    "C14": ["Prefilter", "RabinKarp", "Swar", "ByteSet", "Mask", "Pair", "Searcher", "IterHint", "Shift", "Suffix", "TwoWayNew"],
     "C19": ["Pair"],
 }
 for _pid, _g in TIE_GROUPS.items():
